@@ -351,7 +351,7 @@ type c07 struct{}
 func init() { register(c07{}) }
 
 func (c07) ID() string           { return "C07" }
-func (c07) Runs(tier string) int { return tierLen(tier, 96, 240) }
+func (c07) Runs(tier string) int { return tierLen(tier, 72, 200) }
 
 func (c07) Gen(r *kern.Rng, tier string, idx int) *Trace {
 	pkg := r.PickS("gzip", "zlib")
